@@ -246,6 +246,8 @@ struct CatchInDrop {
     inner: Option<(usize, String)>,
     /// the nested frame's panic is recovered by a plain `catch_unwind` *inside* the frame, which then returns normally
     recovers: bool,
+    /// no frame of this task (this one included) is a catching frame
+    none_catching: bool,
 }
 
 impl Drop for CatchInDrop {
@@ -255,7 +257,14 @@ impl Drop for CatchInDrop {
             kernel::count("c19.catch_during_unwind");
         }
         match &self.inner {
-            Some((task, msg)) if wirefilter::verif::panic_catcher_enabled() => {
+            // the nested frame raises its panic only where that is safe and within the statement: when the frame
+            // catches (catching enabled right now), or - for the kind that recovers its panic itself - when it is
+            // transparent and no enclosing frame catches either (then nothing but the previous hook may see the panic)
+            Some((task, msg)) if wirefilter::verif::panic_catcher_enabled() || (self.recovers && self.none_catching) => {
+                let catching_now = wirefilter::verif::panic_catcher_enabled();
+                if !catching_now {
+                    kernel::count("c19.recovered_in_transparent_destructor_frame");
+                }
                 let (task, msg) = (*task, msg.clone());
                 if unwinding {
                     kernel::count("c19.panic_caught_during_unwind");
@@ -270,8 +279,8 @@ impl Drop for CatchInDrop {
                     *hs_ref = hs;
                     let expect = match hs {
                         HookState::InTransit => None,
-                        HookState::Installed => Some(false),
-                        HookState::NotInstalled => Some(true),
+                        HookState::Installed if catching_now => Some(false),
+                        _ => Some(true),
                     };
                     g(|s| s.expect.push((task, m2.clone(), expect)));
                     if recovers {
@@ -438,6 +447,8 @@ fn exec_ops(ops: &[Op], m: &mut TaskModel) {
                     (m.task, msg)
                 });
                 let panicking_guard = guard_msg.is_some();
+                // (this frame is pushed just below: it catches iff catching is enabled now)
+                let none_catching = depth_catching(m) == 0 && !m.enabled;
                 let catching = m.enabled;
                 let idx = m.frames.len();
                 m.frames.push(catching);
@@ -448,7 +459,7 @@ fn exec_ops(ops: &[Op], m: &mut TaskModel) {
                 let r = {
                     let mm = &mut *m;
                     catch_panic(AssertUnwindSafe(move || {
-                        let _guard = with_guard.then_some(CatchInDrop { inner: guard_msg, recovers });
+                        let _guard = with_guard.then_some(CatchInDrop { inner: guard_msg, recovers, none_catching });
                         exec_ops(body, mm);
                         42u32
                     }))
